@@ -2,18 +2,26 @@
 
 use crate::diagnostics::{Diagnostic, Diagnostics, Error};
 use crate::grammar::*;
+use std::collections::HashMap;
 
 pub fn validate_dictionary(dictionary: &Dictionary, diagnostics: &mut Diagnostics) {
     has_allowed_key_type(dictionary, diagnostics);
 }
 
 fn has_allowed_key_type(dictionary: &Dictionary, diagnostics: &mut Diagnostics) {
-    if let Some(e) = check_dictionary_key_type(&dictionary.key_type) {
+    // Remembers which structs were already found to be valid (or invalid) key types, so that a struct which is reachable
+    // along many paths of fields is only checked once, instead of once per path.
+    let mut checked_structs = HashMap::new();
+    if let Some(e) = check_dictionary_key_type(&dictionary.key_type, true, &mut checked_structs) {
         e.push_into(diagnostics)
     }
 }
 
-fn check_dictionary_key_type(type_ref: &TypeRef) -> Option<Diagnostic> {
+fn check_dictionary_key_type(
+    type_ref: &TypeRef,
+    is_key_itself: bool,
+    checked_structs: &mut HashMap<*const Struct, bool>,
+) -> Option<Diagnostic> {
     // Optional types cannot be used as dictionary keys.
     if type_ref.is_optional {
         return Some(Diagnostic::new(Error::KeyMustBeNonOptional).set_span(type_ref.span()));
@@ -27,13 +35,31 @@ fn check_dictionary_key_type(type_ref: &TypeRef) -> Option<Diagnostic> {
                 return Some(Diagnostic::new(Error::StructKeyMustBeCompact).set_span(type_ref.span()));
             }
 
+            let struct_ptr: *const Struct = struct_def;
+            match checked_structs.get(&struct_ptr) {
+                // We already know this struct is a valid key type; There's nothing more to check.
+                Some(true) => return None,
+
+                // We already know this struct isn't a valid key type. For a field's type, its fields aren't reported
+                // again (only the message and span of this error are used), so we don't need to check them again.
+                Some(false) if !is_key_itself => {
+                    let error = Error::StructKeyContainsDisallowedType {
+                        struct_identifier: struct_def.identifier().to_owned(),
+                    };
+                    return Some(Diagnostic::new(error).set_span(type_ref.span()));
+                }
+
+                _ => {}
+            }
+
             // Check that all the fields of the struct are also valid key types.
             // We collect the invalid fields so we can report them in the error message.
             let errors = struct_def
                 .fields()
                 .into_iter()
-                .filter_map(|field| check_dictionary_key_type(field.data_type()))
+                .filter_map(|field| check_dictionary_key_type(field.data_type(), false, checked_structs))
                 .collect::<Vec<_>>();
+            checked_structs.insert(struct_ptr, errors.is_empty());
             if !errors.is_empty() {
                 let mut error = Diagnostic::new(Error::StructKeyContainsDisallowedType {
                     struct_identifier: struct_def.identifier().to_owned(),
